@@ -16,7 +16,7 @@ CLAIMED = {
    text="zcReader/zcWriter/ioReader/ioWriter run on the real LinkBuffer code against io.Reader/io.Writer stubs whose every count and error is a solver variable (short, zero, negative counts, data with error); two successive calls; stream compared with a rope reference; LinkBufferCap symbolic in one harness.",
    note=LB_NOTE + "; <= 3 source/sink calls per harness", ref="5.4"),
  "C18": dict(cat="model_checking", tech="bounded symbolic execution of go/ssa + SMT (z3)",
-   text="Round-robin pick arithmetic decided for every pool size 1..8 and every counter value below 2^62 by symbolic execution of the real roundRobinLB.Pick; sequential reconfiguration histories (a, b, c loops in 1..4 with Pick in between, balancing mode switched or not): after each phase exactly the configured number of pollers run, surplus ones are closed, every Pick returns a running member, round-robin visits every member.",
+   text="Round-robin pick arithmetic decided for every pool size 1..8 and every counter value below 2^62 by symbolic execution of the real roundRobinLB.Pick; sequential reconfiguration histories (a, b, c loops in 1..4 with Pick in between, balancing mode switched or not; a setting replaced before any Pick saw it; random and back to round-robin): after each phase exactly the configured number of pollers run, surplus ones are closed, every Pick returns a running member, round-robin visits every member whenever round-robin is the mode configured last (ghost expectation, not the balancer's own report).",
    note="openPoll stubbed by a ghost poller that may fail; fastrand arbitrary in range; the concurrent first-use race (two goroutines in the first Pick) is NOT covered: its partial-order exploration does not converge (40 800 events) and is left out", ref="5.19"),
 }
 PO_NOTE = "sequential consistency; buffers summarised on their length counter; kernel (epoll_ctl, close, sendmsg), timers and runner.RunTask replaced by ghost stubs; poller slot recycling stubbed to the token protocol (C10 covers it); bounds (deliveries, closers, task instances, state revisits) in evidence; counterexamples are schedules over real source lines; each is re-executed sequentially over one shared heap in the interpreter (independent of the partial-order encoding) and reported only if the assertion fails again; no native schedule replay"
@@ -29,19 +29,19 @@ CLAIMED.update({
    text="inputAck/onRequest/onProcess/SetOnRequest/onConnect hand-off executed symbolically per thread for 2 deliveries, SetOnRequest racing a delivery, OnConnect still running, delivery + hang-up; mutual exclusion of handler invocations (safety) and 'no quiescent state with stranded input' (quiescence with maximality).",
    note=PO_NOTE, ref="5.8"),
  "C07": dict(cat="model_checking", tech="partial-order SMT encoding + bounded symbolic execution (sequential part)",
-   text="waitRead/waitReadWithTimeout/triggerRead/inputAck/onHup/onClose executed symbolically: reader (1-2 successive calls) vs poller chunks, timer expiry at any point (pre-1.23 timer channel ghost), peer close, local close; wake-up oracle as safety, 'never blocked once data/close/expiry holds' as quiescence; deadline boundary and NewFDConnection-style connections sequentially.",
+   text="waitRead/waitReadWithTimeout/triggerRead/inputAck/onHup/onClose executed symbolically: reader (1-2 successive calls) vs poller chunks, timer expiry at any point (pre-1.23 timer channel ghost), peer close (also with an OnDisconnect callback that waits for the reader: the wake-up must not depend on the callback returning), local close; wake-up oracle as safety, 'never blocked once data/close/expiry holds' as quiescence; deadline boundary and NewFDConnection-style connections sequentially.",
    note=PO_NOTE, ref="5.9"),
  "C09": dict(cat="model_checking", tech="partial-order (event/clock) SMT encoding of per-thread symbolic executions of go/ssa",
    text="onPrepare/register (sequential prologue), onConnect/onDisconnect/onRequest/onProcess/onHup/closeCallback per thread: accept path vs poller (first data, hang-up at any point relative to OnConnect); order monitors in the callbacks as safety, 'OnDisconnect ran exactly once' as quiescence.",
    note=PO_NOTE, ref="5.11"),
  "C10": dict(cat="model_checking", tech="bounded symbolic execution of go/ssa + SMT over close/reopen/stale-call histories",
-   text="Sequential histories over the real operatorCache/FDOperator/defaultPoll/connection code with real buffers: A registered and an event fetched, A closed (user or hang-up), batch end before/after B opens (possibly with A's descriptor number), one of 6 stale calls on A; B's input, slot token, activity and handler must be untouched and the slot not re-issued before the batch ends.",
+   text="Sequential histories over the real operatorCache/FDOperator/defaultPoll/connection code with real buffers: A registered and an event fetched, A closed (user or hang-up), batch end before/after B opens (possibly with A's descriptor number), one of 6 stale calls on A; B's input, slot token, activity and handler must be untouched and the slot not re-issued before the batch ends; when close(2) is issued on A's descriptor the slot has been given up (the number can be re-issued from then on); plus a partial-order harness: a stale Release/Close/Len on A concurrent with the poller's dispatch on B, which owns A's recycled slot - the poller always gets the token.",
    note=SEQ_NOTE, ref="5.12"),
  "C11": dict(cat="model_checking", tech="bounded symbolic execution of go/ssa + SMT; event words and kernel answers symbolic",
-   text="defaultPoll.handler/appendHup/detach/onhups/readall/ioread/iosend executed on a batch whose 32-bit flag words, unread-byte counts and every readv/sendmsg/Recvmsg answer are solver variables; log oracles: input before hang-up, ack counts equal kernel counts, hang-up once and after deregistration, drain-before-hang-up, slot token returned, wake-up/close arithmetic of the eventfd.",
+   text="defaultPoll.handler/appendHup/detach/onhups/readall/ioread/iosend executed on a batch whose 32-bit flag words, unread-byte counts and every readv/sendmsg/Recvmsg answer are solver variables; log oracles: input before hang-up, ack counts equal kernel counts, hang-up once and after deregistration, drain-before-hang-up, slot token returned, wake-up/close arithmetic of the eventfd; complete Trigger calls from other goroutines injected around the handler's eventfd read: the wake-up flag is never left set with an empty eventfd, a later Trigger wakes the loop.",
    note=SEQ_NOTE, ref="5.13"),
  "C12": dict(cat="model_checking", tech="bounded symbolic execution of go/ssa + SMT over the method x close-mode matrix",
-   text="23 methods x {user, peer, peer then user, detach} x {with/without OnRequest} x {output pending or not}, input 0..64 bytes symbolic: the real close path runs to completion on real buffers, then the method is called, then Close, then the method again; no panic path, no blocking path, ErrConnClosed/ErrEOF matching as stated.",
+   text="23 methods x {user, peer, peer then user, detach} x {with/without OnRequest} x {output pending or not}, input 0..64 bytes symbolic: the real close path runs to completion on real buffers, then the method is called, then Close, then the method again; no panic path, no blocking path, ErrConnClosed/ErrEOF matching as stated; the 9 reader calls again on a connection with a read timeout whose timer already exists and is stopped.",
    note=SEQ_NOTE, ref="5.14"),
 })
 CLAIMED.update({
@@ -52,19 +52,19 @@ CLAIMED.update({
    text="flush/waitFlush/sendmsg/outputAck/onWrite (rw2r)/onHup/onClose executed symbolically per thread: writer with 1-2 Flush calls vs poller write-ready dispatches, peer drain, write-timer expiry, close; oracle: nil only when the kernel ghost took every byte, error only with close/timeout, writer never left blocked once space/close/expiry holds (quiescence).",
    note=PO_NOTE + "; byte counts in [1,2^20] in scenarios 0,1,3 and in [1,4] in scenarios 2,4,5 (measured: large ranges make those queries time out); timer durations are checked in the sequential deadline harness, not in the partial-order scenarios (there a timer may fire at any moment)", ref="5.10"),
  "C13": dict(cat="model_checking", tech="bounded symbolic execution of go/ssa + SMT with event injection at the stub boundaries",
-   text="server.OnRead/onAccept/OnHup/Close executed sequentially with the racing step (peer hang-up, Shutdown, accept failure incl. the EMFILE back-off ladder with 1..9 failures) injected at every stub boundary by a solver-chosen switch; table of tracked connections compared with the ghost set after every step; Close returns nil only with an empty table, closes every idle connection whatever the table order, never closes a busy one.",
+   text="server.OnRead/onAccept/OnHup/Close executed sequentially with the racing step (peer hang-up, Shutdown, accept failure incl. the EMFILE back-off ladder with 1..9 failures) injected at every stub boundary by a solver-chosen switch; table of tracked connections compared with the ghost set after every step; Close returns nil only with an empty table, closes every idle connection whatever the table order, never closes a busy one (handler running, unread input, or unsent output), also not in the sweep that lets Close return; a descriptor number re-issued to a newly accepted connection at the close(2) of the old one: the new connection stays tracked.",
    note=SEQ_NOTE + "; interleavings are limited to the injection points (kernel stubs, RunTask, callbacks), not instruction-level", ref="5.15"),
  "C14": dict(cat="model_checking", tech="bounded symbolic execution of go/ssa + SMT; connect/poll/getsockopt answers symbolic",
-   text="DialTCP and the dialer front end (dialer.dialTCP with stubbed resolution) executed on kernel stubs whose every answer (EINPROGRESS, EINTR, EISCONN, SO_ERROR, readiness, hang-up, deadline expiry at any event incl. after establishment, one self-connect retry) is a solver variable: the result is a usable registered connection whose last kernel verdict was 'established', or an error with every descriptor closed once and nothing registered; timeout errors report Timeout().",
-   note=SEQ_NOTE, ref="5.16"),
+   text="DialTCP and the dialer front end (dialer.dialTCP with stubbed resolution) executed on kernel stubs whose every answer (EINPROGRESS, EINTR, EISCONN, SO_ERROR, readiness, hang-up, deadline expiry at any event incl. after establishment, one self-connect retry, EPOLL_CTL_ADD failing, EADDRNOTAVAIL answers) is a solver variable: the result is a usable registered connection whose last kernel verdict was 'established', or an error with every descriptor closed once and nothing registered; timeout errors report Timeout().",
+   note=SEQ_NOTE + "; errors built by os.NewSyscallError are opaque values in the encoder, so the EADDRNOTAVAIL retry branch of sysDialer.dialTCP (a type assertion on *os.SyscallError) is not entered: the bound of that retry loop is outside the claim", ref="5.16"),
  "C15": dict(cat="model_checking", tech="bounded symbolic execution of go/ssa + SMT; descriptor ledger ghost at the syscall stubs",
    text="Every encoded path that opens a descriptor (openPoll with epoll_create/eventfd, sysSocket with its option/dial failure paths, ConvertListener/File() dup, listener.Close, and the dial/accept failure paths of the C13/C14 harnesses) runs against a descriptor ledger that may re-issue a closed number to a foreign owner: each owned descriptor closed exactly once on every success and error path, no close of a descriptor not owned.",
    note=SEQ_NOTE, ref="5.17"),
  "C17": dict(cat="model_checking", tech="bounded symbolic execution of go/ssa + SMT over scripts with call-granular injection of concurrent Add/Close",
-   text="ShardQueue Add/foreach/deal/Close executed symbolically over solver-chosen scripts (Add | run the pending worker | Close, <= 5 steps, 1..3 shards) and with a complete Add from another goroutine (<= 3) or the beginning of Close injected at every call-out of the worker (IsActive, getter begin/end, Append, Flush begin/end): every getter added before Close is invoked exactly once, a Flush follows the last Append, Close returns only after every earlier getter was invoked, Adds after Close invoke nothing, trigger and worker counters back to zero.",
+   text="ShardQueue Add/foreach/deal/Close executed symbolically over solver-chosen scripts (Add | run the pending worker | Close, <= 5 steps, 1..3 shards) and with a complete Add from another goroutine (<= 3) or the beginning of Close injected at every call-out of the worker (IsActive, getter begin/end, Append, Flush begin/end), and the worker started by the first Add running to completion at the second Add's listLock call (the one call-out inside Add): every getter added before Close is invoked exactly once, a Flush follows the last Append, Close returns only after every earlier getter was invoked, Adds after Close invoke nothing, trigger and worker counters back to zero.",
    note="interleavings are call-granular: instruction-level interleavings inside Add / the worker loop are NOT covered (the partial-order exploration of this slice/closure-heavy code does not converge); a Close that has to wait is suspended after its CAS and its wait loop is completed by the harness between tasks; runner.RunTask stubbed by a task list", ref="5.18"),
  "C19": dict(cat="model_checking", tech="partial-order SMT encoding: adjacency query over conflicting access pairs (one plain)",
-   text="On every partial-order harness of C05-C09 (teardown, hand-off, wake-up with Release, flush, lifecycle order) and on a dedicated Release-vs-delivery harness the query 'two accesses to the same location from different threads, one a write, one not atomic, both executed and adjacent in the global order' is posed over all statically conflicting pairs; a locked/unlocked pair of guard harnesses (vacuity twin) shows the query sees a race and does not invent one.",
+   text="On every partial-order harness of C05-C09 (teardown, hand-off, wake-up with Release, flush, lifecycle order) on a dedicated Release-vs-delivery harness and on a slot give-back (operatorCache.freeable) vs dispatching-poller harness the query 'two accesses to the same location from different threads, one a write, one not atomic, both executed and adjacent in the global order' is posed over all statically conflicting pairs; a locked/unlocked pair of guard harnesses (vacuity twin) shows the query sees a race and does not invent one.",
    note=PO_NOTE + "; buffer internals are summarised (the documented exemption); objects allocated by a thread and published later are snapshotted, so races on them are outside; server/dialer/ShardQueue/pool-reconfiguration scenarios are outside (no partial-order harness for them); no -race replay", ref="5.20"),
 })
 NA = {}
